@@ -108,6 +108,8 @@ func checkC04(c *Check) {
 	actionIDs(c, r)
 	forEachRuntime(c, func(a *aggregator, v *rtView) {
 		rtExecute(a, v)
+		// Execute ranges over the whole published token list: it must hold the derivation and nothing else
+		rtTokens(a, v)
 		if v.in.Cfg.Bools["Ast"] {
 			// Execute replays the token list: a memo hit must leave exactly the tokens a re-run would
 			if f := v.cl["memoizedResult"]; f != nil {
